@@ -530,3 +530,12 @@ Proof.
   - split; [exact I|]. split; [intros ab []|].
     intros j Hj. rewrite A. split; [discriminate|]. intros (ab & [] & _).
 Qed.
+
+Lemma at_most_once_all_histories : forall n interval now p k fa ops,
+  (1 <= k)%nat -> (p + k + 2 <= n)%nat -> 0 < interval ->
+  pdisj (emitted_intervals (run (new_ring n interval now p k true fa) ops))
+  /\ ~ In ODiverge (run (new_ring n interval now p k true fa) ops).
+Proof.
+  intros n interval now p k fa ops Hk Hc Hi.
+  exact (run_winv ops _ [] (new_ring_winv n interval now p k fa Hk Hc Hi)).
+Qed.
